@@ -110,10 +110,13 @@ def well_formed(buf, max_size=None):
 
 
 # ---- raw client --------------------------------------------------------------------------------
+DEFAULT_SSL = False         # set by the fixture while a TLS daemon is under test
+
+
 class RawClient:
     """Speaks the wire protocol directly; no metadata checks, no sequence checks, arbitrary bytes allowed."""
 
-    def __init__(self, location, timeout=5.0):
+    def __init__(self, location, timeout=5.0, use_ssl=None):
         if isinstance(location, str):
             self.sock = socket.socket(socket.AF_UNIX, socket.SOCK_STREAM)
         else:
@@ -134,6 +137,13 @@ class RawClient:
                     time.sleep(0.005)
         else:
             self.sock.connect(location)
+            if DEFAULT_SSL if use_ssl is None else use_ssl:
+                # the daemon under test speaks TLS: a raw client that does not care whose certificate it is shown
+                import ssl as _ssl
+                ctx = _ssl.SSLContext(_ssl.PROTOCOL_TLS_CLIENT)
+                ctx.check_hostname = False
+                ctx.verify_mode = _ssl.CERT_NONE
+                self.sock = ctx.wrap_socket(self.sock)
         self.seq = 0
 
     def local(self):
@@ -170,6 +180,23 @@ class RawClient:
             return None
         except OSError:
             return True
+
+    def drain_eof(self, timeout=5.0):
+        """reads whatever the peer still sends; True once the end of the stream (or a reset) is seen, None if the stream is still open after the watchdog"""
+        end = time.time() + timeout
+        while True:
+            self.sock.settimeout(max(0.05, end - time.time()))
+            try:
+                if self.sock.recv(65536) == b"":
+                    return True
+            except (ConnectionResetError, BrokenPipeError):
+                return True
+            except socket.timeout:
+                return None
+            except OSError:
+                return True
+            if time.time() > end:
+                return None
 
     def handshake(self, objid, ser, handshake="hello", anns=(), corr=None, flags=0):
         data = ser.dumps({"handshake": handshake, "object": objid})
